@@ -88,8 +88,31 @@ STATEMENTS = {
     "a[i, j, k] = v (a : n-d array)": "PySM.NdArr.setAt a [i, j, k] v",
     "if A and B: (an operation that can raise inside B)": "if A: if B: (else branch duplicated)",
     "TARGETS.body_from = 'for' with TARGETS.live_in": "the function from its first top-level loop on; live-in variables are parameters",
+    "print(…)": "no-op",
+    "obj.m(…) / x = obj.m(…) with TARGETS.rec_methods[...].mutates": "opaque T_m : T → … → M (ret × T); obj rebound, x = the result",
+    "opt.attr / opt.m(…) (opt an Optional opaque object)": "PySM.getObj: AttributeError on None",
+    "return None next to return x (TARGETS.returns = Optional type)": "none / some x",
+    "numpy.isnan(x), x == -numpy.inf, numpy.isnan(numpy.sum(xs)), ~mask (values that may be nan / -inf: NREAL)":
+        "PySM.isNan / isNegInf / anyNan / map not",
+    "a / b of numpy integers with TARGETS.int_div = 'real'": "RealOps.div (ofNat a) (ofNat b)",
+    "numpy.log10(x)": "PySM.log10 (real, list of reals, list of counts via ofNat)",
 }
 MUTATING_METHODS = ("fill", "append")
+
+
+NREAL = Ty("nreal")         # a float of the real layer that may be nan or -inf: Option (ELL α), none = nan
+
+
+def uses_real_sm(t):
+    if t is None:
+        return False
+    if t.kind == "nreal":
+        return True
+    if t.kind in ("list", "opt", "ndarr"):
+        return uses_real_sm(t.item)
+    if t.kind == "tuple":
+        return any(uses_real_sm(x) for x in t.item)
+    return t.uses_real() if t.kind in ("real", "ereal") else False
 
 
 def NDARR(t):
@@ -99,6 +122,8 @@ def NDARR(t):
 def lty(t):
     """Lean type of a Ty (superset of Ty.lean)"""
     k = t.kind
+    if k == "nreal":
+        return "Option (ELL α)"
     if k == "ndarr":
         return f"PySM.NdArr {P._paren(lty(t.item))}"
     if k == "opt":
@@ -139,6 +164,8 @@ class FnSM(P.Fn):
         self.is_gen = any(isinstance(n, (ast.Yield, ast.YieldFrom)) for n in ast.walk(node))
         self.aliased = set()
         self.yield_ty = spec.get("yields")
+        if spec.get("returns") is not None:
+            self.ret_ty = spec["returns"]     # declared (Optional) result type: `return None` next to `return x`
         self.extras = []         # env keys returned after the result
         self.raises = True
         self.rec_params = []     # opaque Lean type parameters in order of first use
@@ -148,6 +175,7 @@ class FnSM(P.Fn):
         self.uses_iter_self = False
         self.uses_empty = False
         self.used_obj_iters = []
+        self.used_injections = []
         self.used_rec_methods = []
         self.used_setters = []
         self.used_attrs = []     # (record type, attribute, type) of opaque objects' attributes read
@@ -213,6 +241,9 @@ class FnSM(P.Fn):
                         kind = fn.split(".")[-1]
                         for st_ in (["pois'"] if kind == "poisson" else ["rng'", "pois'"] if kind == "seed" else ["rng'"]):
                             add(st_)
+                    if isinstance(n.func, ast.Attribute) and isinstance(n.func.value, ast.Name) and any(
+                            d_.get(n.func.attr, {}).get("mutates") for d_ in self.spec.get("rec_methods", {}).values()):
+                        add(n.func.value.id)
                     var = self.callee_variant(n)
                     if var is not None:
                         for st_ in var.get("hidden", []):
@@ -268,6 +299,21 @@ class FnSM(P.Fn):
         return any(walk(s, False) for s in stmts)
 
     def coerce_sm(self, v, ty, node):
+        if ty.kind == "rec" and v.ty.kind in ("int", "nat") and ty.item in self.spec.get("lit_as", {}):
+            # an int where a value of the opaque type is expected (e.g. the sentinel -1 of a quantile): opaque injection
+            inj = self.spec["lit_as"][ty.item]
+            if inj not in self.used_injections:
+                self.used_injections.append((inj, ty.item)) if (inj, ty.item) not in self.used_injections else None
+            return f"({inj} {self.to_int(v, node)})"
+        if ty.kind == "tuple" and v.ty.kind == "tuple" and len(ty.item) == len(v.ty.item) and getattr(v, "parts", None):
+            return "(" + ", ".join(self.coerce_sm(x, t, node) for x, t in zip(v.parts, ty.item)) + ")"
+        if ty.kind == "tuple" and v.ty.kind == "tuple" and len(ty.item) == len(v.ty.item) and v.ty != ty:
+            n = len(ty.item)
+            parts = [self.coerce_sm(Val(v.code + "".join([".2"] * i) + (".1" if i < n - 1 else ""), v.ty.item[i]), ty.item[i], node)
+                     for i in range(n)]
+            return "(" + ", ".join(parts) + ")"
+        if ty.kind == "nreal" and v.ty.kind == "none":
+            return "(none : Option (ELL α))"
         if ty.kind == "str" and v.ty.kind == "str":
             return self.str_code(v)
         if ty.kind == "opt":
@@ -320,6 +366,12 @@ class FnSM(P.Fn):
         return super().to_bool(v, node)
 
     def e_UnaryOp(self, e, env):
+        if isinstance(e.op, ast.Invert):
+            n0 = len(self.pending)
+            v = self.expr(e.operand, env)
+            if v.ty == LIST(BOOL):
+                return Val(f"(List.map (fun b_ => !b_) {v.code})", LIST(BOOL))
+            del self.pending[n0:]
         if isinstance(e.op, ast.Not):
             v = self.expr(e.operand, env)
             if v.is_static:
@@ -353,6 +405,15 @@ class FnSM(P.Fn):
             return Val("[" + ", ".join(self.str_code(v) for v in vs) + "]", LIST(STR))
         return Val("[" + ", ".join(self.coerce_sm(v, t, e) for v in vs) + "]", LIST(t))
 
+    def e_Tuple(self, e, env):
+        if any(isinstance(x, ast.Constant) and x.value is None for x in e.elts):
+            # a tuple display with `None` members: only usable where the declared type says what None is there (Optional)
+            vs = [self.expr(x, env) for x in e.elts]
+            v = Val(None, TUPLE(*[x.ty.with_elem(False) for x in vs]))
+            v.parts = vs
+            return v
+        return super().e_Tuple(e, env)
+
     def e_Attribute(self, e, env):
         k = self.key_of(e)
         if k == "self.__class__":
@@ -368,6 +429,10 @@ class FnSM(P.Fn):
         if any(e.attr in d for d in ra.values()):
             n0 = len(self.pending)
             v = self.expr(e.value, env)
+            if v.ty.kind == "opt" and v.ty.item.kind == "rec" and e.attr in ra.get(v.ty.item.item, {}):
+                t_ = self.fresh("t")      # an attribute of an Optional object: AttributeError when it is None
+                self.pending.append((t_, f"(PySM.getObj {v.code})"))
+                v = Val(t_, v.ty.item)
             if v.ty.kind == "rec" and e.attr in ra.get(v.ty.item, {}):
                 ent = (v.ty.item, e.attr, ra[v.ty.item][e.attr])
                 if ent not in self.used_attrs:
@@ -493,6 +558,12 @@ class FnSM(P.Fn):
             self.bad(e, f".shape[0] of {a.ty}")
         v = self.expr(e.value, env)
         s = e.slice
+        ra = self.spec.get("rec_attrs", {})
+        if v.ty.kind == "rec" and isinstance(s, ast.Constant) and isinstance(s.value, str) and s.value in ra.get(v.ty.item, {}):
+            ent = (v.ty.item, s.value, ra[v.ty.item][s.value])       # r["key"] on an opaque record: opaque projection
+            if ent not in self.used_attrs:
+                self.used_attrs.append(ent)
+            return Val(f"({v.ty.item}_{s.value} {v.code})", ra[v.ty.item][s.value])
         if v.ty.kind == "cmpdict":
             kx = self.expr(s, env)
             if kx.ty.kind != "str":
@@ -591,6 +662,27 @@ class FnSM(P.Fn):
         return super().compare(op, a, b, node)
 
     def e_Compare(self, e, env):
+        if len(e.ops) == 1 and isinstance(e.ops[0], (ast.Eq, ast.NotEq)):
+            c0 = e.comparators[0]
+            neg = isinstance(e.ops[0], ast.NotEq)
+            if isinstance(c0, ast.UnaryOp) and isinstance(c0.op, ast.USub) and dotted(c0.operand) in ("numpy.inf", "np.inf"):
+                v = self.expr(e.left, env)
+                if v.ty.kind in ("nreal", "ereal"):
+                    self.uses_real = True
+                    code = f"(PySM.isNegInf {v.code})" if v.ty.kind == "nreal" else f"(PySM.isNegInfE {v.code})"
+                    return Val(f"(!{code})" if neg else code, BOOL)
+                self.bad(e, f"comparison of {v.ty} with -inf")
+            if isinstance(c0, ast.Constant) and c0.value == 0 and not isinstance(c0.value, bool):
+                n0, tmp0 = len(self.pending), self.tmp
+                v = self.expr(e.left, env)
+                if v.ty.kind == "real" or v.ty == LIST(REAL):
+                    self.uses_real = True
+                    one = (lambda c: f"(!(PySM.isZeroR {c}))") if neg else (lambda c: f"(PySM.isZeroR {c})")
+                    if v.ty.kind == "real":
+                        return Val(one(v.code), BOOL)
+                    return Val(f"(List.map (fun x_ => {one('x_')}) {v.code})", LIST(BOOL))
+                del self.pending[n0:]
+                self.tmp = tmp0          # the probe is undone completely: the names of the other path do not shift
         if len(e.ops) == 1 and isinstance(e.ops[0], ast.LtE):
             n0 = len(self.pending)
             a, b = self.expr(e.left, env), self.expr(e.comparators[0], env)
@@ -604,6 +696,13 @@ class FnSM(P.Fn):
         if len(e.ops) == 1 and isinstance(e.ops[0], (ast.Is, ast.IsNot)):
             # identity tests are never elementwise
             return self.compare(e.ops[0], self.expr(e.left, env), self.expr(e.comparators[0], env), e)
+        if len(e.ops) == 1 and isinstance(e.ops[0], (ast.In, ast.NotIn)) and isinstance(e.left, ast.Constant) \
+                and e.left.value is None:
+            v = self.expr(e.comparators[0], env)
+            if v.ty.kind == "list" and v.ty.item is not None and v.ty.item.kind == "opt":
+                code = f"(List.any {v.code} Option.isNone)"       # `None in t` on a group of Optional items
+                return Val(code if isinstance(e.ops[0], ast.In) else f"(!{code})", BOOL)
+            self.bad(e, f"`None in` {v.ty}")
         # `v in (None, '')`: emptiness of one field
         if len(e.ops) == 1 and isinstance(e.ops[0], (ast.In, ast.NotIn)) and isinstance(e.comparators[0], ast.Tuple):
             opts = e.comparators[0].elts
@@ -633,7 +732,10 @@ class FnSM(P.Fn):
             if fn not in self.used_opaque:
                 self.used_opaque.append(fn)
             allowed_kw = o.get("kwargs", [])
-            vs = [self.expr(a, env) for a in args]
+            if o.get("star") and len(args) == 1 and isinstance(args[0], ast.Starred):
+                vs = [self.expr(args[0].value, env)]        # f(*t): the declared opaque takes the group as one list
+            else:
+                vs = [self.expr(a, env) for a in args]
             names_kw = [k.arg for k in e.keywords]
             if any(k is None and "**" not in allowed_kw for k in names_kw):
                 self.bad(e, f"opaque {fn}: **kwargs not declared")
@@ -660,6 +762,15 @@ class FnSM(P.Fn):
                 self.pending.append((t, code))
                 return Val(t, o["ret"])
             return Val(code, o["ret"])
+        if fn in ("zip_longest", "itertools.zip_longest") and len(args) == 1 and not kw and isinstance(args[0], ast.Starred):
+            # zip_longest(*[g()] * k): ONE iterator object k times = its items in groups of k, the last filled with None
+            b = args[0].value
+            if isinstance(b, ast.BinOp) and isinstance(b.op, ast.Mult) and isinstance(b.left, ast.List) and len(b.left.elts) == 1 \
+                    and isinstance(b.right, ast.Constant) and isinstance(b.right.value, int) and b.right.value > 0 \
+                    and isinstance(b.left.elts[0], ast.Call) and opq.get(dotted(b.left.elts[0].func), {}).get("generator"):
+                it = self.expr(b.left.elts[0], env)
+                return Val(f"(PySM.chunksLongest {b.right.value} {it.code})", LIST(LIST(OPT(it.ty.item))))
+            self.bad(e, "zip_longest other than zip_longest(*[<opaque generator>()] * <literal>)")
         if isinstance(e.func, ast.Attribute) and isinstance(e.func.value, ast.Name) and e.func.value.id == "self" \
                 and self.is_method and not args and not kw:
             m = self.find_method(e.func.attr)
@@ -713,6 +824,31 @@ class FnSM(P.Fn):
             if v.ty.kind == "list":
                 return v            # a fresh copy: the identity under value semantics
             self.bad(e, f"{fn} of {v.ty}")
+        if np_("isnan") and len(args) == 1 and not kw:
+            a0 = args[0]
+            if isinstance(a0, ast.Call) and dotted(a0.func) in ("numpy.sum", "np.sum") and len(a0.args) == 1:
+                v = self.expr(a0.args[0], env)
+                if v.ty == LIST(NREAL):
+                    # isnan(sum(x)) for values in {nan, -inf, finite}: some entry is nan
+                    self.uses_real = True
+                    return Val(f"(PySM.anyNan {v.code})", BOOL)
+            v = self.expr(a0, env)
+            self.uses_real = True
+            if v.ty.kind == "nreal":
+                return Val(f"(PySM.isNan {v.code})", BOOL)
+            if v.ty == LIST(NREAL):
+                return Val(f"(List.map PySM.isNan {v.code})", LIST(BOOL))
+            self.bad(e, f"numpy.isnan of {v.ty}")
+        if np_("log10") and len(args) == 1 and not kw:
+            v = self.expr(args[0], env)
+            self.uses_real = True
+            if v.ty.kind == "real":
+                return Val(f"(PySM.log10 {v.code})", v.ty)
+            if v.ty == LIST(REAL):
+                return Val(f"(List.map PySM.log10 {v.code})", v.ty)
+            if v.ty == LIST(NAT):     # an integer array: converted to float64 (exact: counts), then the real-layer log10
+                return Val(f"(List.map (fun n_ => PySM.log10 (RealOps.ofNat n_ : α)) {v.code})", LIST(REAL))
+            self.bad(e, f"numpy.log10 of {v.ty}")
         if fn == "str" and len(args) == 1 and not kw:
             n0 = len(self.pending)
             v = self.expr(args[0], env)
@@ -733,8 +869,17 @@ class FnSM(P.Fn):
             rm = self.spec.get("rec_methods", {})
             if any(e.func.attr in d for d in rm.values()):
                 n0 = len(self.pending)
-                recv = self.expr(e.func.value, env)
-                if recv.ty.kind == "rec" and e.func.attr in rm.get(recv.ty.item, {}):
+                try:
+                    recv = self.expr(e.func.value, env)
+                except Untranslatable:          # e.g. `numpy.sum`: the receiver is a module, not an object
+                    recv = Val(None, NONE, static=None)
+                    del self.pending[n0:]
+                if recv.ty.kind == "opt" and recv.ty.item.kind == "rec" and e.func.attr in rm.get(recv.ty.item.item, {}):
+                    t_ = self.fresh("t")      # a method of an Optional object: AttributeError when it is None
+                    self.pending.append((t_, f"(PySM.getObj {recv.code})"))
+                    recv = Val(t_, recv.ty.item)
+                if recv.ty.kind == "rec" and e.func.attr in rm.get(recv.ty.item, {}) \
+                        and not rm[recv.ty.item][e.func.attr].get("mutates"):
                     o = rm[recv.ty.item][e.func.attr]
                     ent = (recv.ty.item, e.func.attr)
                     if ent not in self.used_rec_methods:
@@ -940,6 +1085,39 @@ class FnSM(P.Fn):
         if key in self.param_vals and key not in self.spec.get("inout", []):
             self.bad(node, f"parameter {key} is updated in place but not declared `inout` in TARGETS")
 
+    def arith(self, op, a, b, node):
+        if isinstance(op, ast.Div) and self.spec.get("int_div") == "real" and a.ty.kind in ("nat", "int") \
+                and b.ty.kind in ("nat", "int"):
+            # TARGETS.int_div = "real": both operands are numpy integers (results of numpy.sum on count arrays); numpy's true
+            # division never raises, the quotient is a float64: the real-layer quotient (a zero divisor is outside that layer)
+            self.uses_real = True
+            return Val(f"(RealOps.div {self.to_real(a, node)} {self.to_real(b, node)})", Ty("real", a.ty.elem or b.ty.elem))
+        return super().arith(op, a, b, node)
+
+    def mut_call(self, c, env, s):
+        """`obj.m(…)` that changes the opaque object `obj` (`rec_methods … mutates`): opaque `T_m : T → … → M (ret × T)`;
+        queues the call, returns (bound name, obj, declaration) — the caller rebinds the object to `.2` — or None"""
+        if not (isinstance(c, ast.Call) and isinstance(c.func, ast.Attribute) and isinstance(c.func.value, ast.Name)
+                and c.func.value.id in env and env[c.func.value.id].ty.kind == "rec"):
+            return None
+        obj = env[c.func.value.id]
+        o = self.spec.get("rec_methods", {}).get(obj.ty.item, {}).get(c.func.attr)
+        if o is None or not o.get("mutates"):
+            return None
+        for k_ in c.keywords:
+            if k_.arg not in o.get("ignore_kw", []):
+                self.bad(s, f"method {c.func.attr}: keyword {k_.arg} is not declared")
+        vs = [self.expr(a, env) for a in c.args]
+        if len(vs) != len(o["args"]):
+            self.bad(s, f"method {c.func.attr}: arguments differ from the declaration")
+        ent = (obj.ty.item, c.func.attr)
+        if ent not in self.used_rec_methods:
+            self.used_rec_methods.append(ent)
+        r = self.fresh("m")
+        self.pending.append((r, f"({obj.ty.item}_{c.func.attr} " + " ".join(
+            [obj.code] + [self.coerce_sm(v, t, s) for v, t in zip(vs, o["args"])]) + ")"))
+        return r, obj, o
+
     def rebind(self, key, v, env, go, pad, node):
         """assignment of a translated value to an env key"""
         pre = self.pre(pad)
@@ -1009,6 +1187,8 @@ class FnSM(P.Fn):
                 return pad + self.final(None, env, s)
             v = self.expr(s.value, env)
             pre = self.pre(pad)
+            if v.code is None and v.ty.kind == "none" and self.ret_ty is not None and self.ret_ty.kind == "opt":
+                v = Val(f"(none : {lty(self.ret_ty)})", self.ret_ty)
             if v.code is None:
                 self.bad(s, f"return of a {v.ty} constant")
             key = self.key_of(s.value)
@@ -1046,6 +1226,14 @@ class FnSM(P.Fn):
             if len(s.targets) != 1:
                 self.bad(s, "multiple assignment targets")
             t = s.targets[0]
+            if isinstance(t, ast.Name) and t.id in self.spec.get("ignore_locals", []):
+                self.check_ignored(t.id, s)
+                return go(env)       # a message text: not evaluated
+            mc = self.mut_call(s.value, env, s) if isinstance(t, ast.Name) else None
+            if mc is not None:
+                # x = obj.m(…): the object is rebound first, then x is the returned value
+                return self.rebind(s.value.func.value.id, Val(f"{mc[0]}.2", mc[1].ty), env,
+                                   lambda e_: self.rebind(t.id, Val(f"{mc[0]}.1", mc[2]["ret"]), e_, go, pad, s), pad, s)
             v = self.expr(s.value, env)
             key = self.key_of(t)
             if key is not None:
@@ -1180,6 +1368,13 @@ class FnSM(P.Fn):
                 self.used_rec = True
                 call = f"({self.spec['lean']} {{OPAQUE}} fuel " + " ".join(codes) + ")"
                 return pre0 + f"{pad}Except.bind {call} fun {r} =>\n{lets}" + self.blk(rest, env2, k, ind, ctx)
+            if fn == "print":
+                return go(env)       # output only: a no-op (its arguments are not evaluated)
+            if fn == "warnings.warn":
+                return go(env)       # a warning under the default filters: a no-op (its arguments are not evaluated)
+            mc = self.mut_call(c, env, s)
+            if mc is not None:
+                return self.rebind(c.func.value.id, Val(f"{mc[0]}.2", mc[1].ty), env, go, pad, s)
             if fn in ("numpy.random.seed", "np.random.seed") and len(c.args) == 1 and not c.keywords:
                 sv = self.expr(c.args[0], env)
                 if sv.ty.kind not in ("int", "nat"):
@@ -1227,12 +1422,60 @@ class FnSM(P.Fn):
             env2[it.optional_vars.id] = Val(None, Ty("file"), static="<file>")
             return self.blk(list(s.body) + rest, env2, k, ind, ctx)
         if isinstance(s, ast.Try):
+            if len(s.body) == 1 and len(s.handlers) == 1 and s.handlers[0].type is not None and not s.orelse and not s.finalbody:
+                return self.s_try_catch(s, rest, env, k, ind, ctx)
             return self.s_dead_try(s, rest, env, k, ind, ctx)
         if isinstance(s, ast.If):
             return self.s_if(s, rest, env, k, ind, ctx)
         if isinstance(s, (ast.For, ast.While)):
             return self.s_loop(s, rest, env, k, ind, ctx)
         self.bad(s, f"statement {type(s).__name__} is not translated")
+
+    def check_ignored(self, name, node):
+        """a local declared in TARGETS.ignore_locals is built by `%` formatting only and read only by warnings.warn / print"""
+        v = node.value
+        if not (isinstance(v, ast.BinOp) and isinstance(v.op, ast.Mod) and isinstance(v.left, ast.Constant)
+                and isinstance(v.left.value, str)) and not (isinstance(v, ast.Constant) and isinstance(v.value, str)):
+            self.bad(node, f"ignored local {name} is not a string literal / `literal % values`")
+        allowed = set()
+        for n in ast.walk(self.node):
+            if isinstance(n, ast.Call) and dotted(n.func) in ("warnings.warn", "print"):
+                allowed |= {id(x) for x in ast.walk(n)}
+        for n in ast.walk(self.node):
+            if isinstance(n, ast.Name) and n.id == name and isinstance(n.ctx, ast.Load) and id(n) not in allowed:
+                self.bad(n, f"ignored local {name} is read outside warnings.warn / print")
+
+    def s_try_catch(self, s, rest, env, k, ind, ctx):
+        """`try: x = f(…) except (E1, E2): H` around ONE call of an opaque raising function: PySM.tryCatch"""
+        pad = "  " * ind
+        h = s.handlers[0]
+        if h.name is not None:
+            self.bad(s, "`except … as e`")
+        classes = [dotted(x) for x in (h.type.elts if isinstance(h.type, ast.Tuple) else [h.type])]
+        known = ("ValueError", "IndexError", "AssertionError", "StopIteration", "TypeError", "AttributeError", "KeyError",
+                 "OSError", "IOError", "EnvironmentError", "RuntimeError")
+        if any(c not in known for c in classes):
+            self.bad(s, f"except clause names {classes}: only {known} are distinguished")
+        st = s.body[0]
+        if not (isinstance(st, ast.Assign) and len(st.targets) == 1 and isinstance(st.targets[0], ast.Name)
+                and isinstance(st.value, ast.Call) and self.spec.get("opaque", {}).get(dotted(st.value.func), {}).get("raises")):
+            self.bad(s, "try body other than `x = <opaque raising call>(…)`")
+        pre0 = self.pre(pad)
+        n0 = len(self.pending)
+        v = self.expr(st.value, env)
+        if len(self.pending) != n0 + 1 or self.pending[-1][0] != v.code:
+            self.bad(s, "the arguments of the call inside `try` can raise themselves")
+        _, act = self.pending.pop()
+        ev = self.fresh("e")
+        catches = "(fun " + ev + " => " + " || ".join(f"decide ({ev} = {exc_of(c)})" for c in dict.fromkeys(exc_of(c) and c for c in classes)) + ")"
+        tv = self.fresh("t")
+        env_ok = dict(env)
+        x = st.targets[0].id
+        env_ok[x] = Val(mangle(x), v.ty)
+        ok_code = f"{pad}    let {mangle(x)} := {tv};\n" + self.blk(rest, env_ok, k, ind + 2, ctx)
+        err_code = self.blk(list(h.body) + rest, env, k, ind + 2, ctx)
+        return (pre0 + f"{pad}PySM.tryCatch {act} {catches}\n{pad}  (fun {tv} =>\n{ok_code})\n"
+                f"{pad}  (fun _ =>\n{err_code})")
 
     def s_dead_try(self, s, rest, env, k, ind, ctx):
         """`try: <locals := pure helpers(…)>; <passthrough>.setdefault(…)  except: pass` whose locals are read nowhere
@@ -1388,6 +1631,8 @@ class FnSM(P.Fn):
                 t0 = t
             elif {t0.kind, t.kind} == {"int", "nat"}:
                 t0 = INT
+            elif {t0.kind, t.kind} == {"int", "rec"} and (t0 if t0.kind == "rec" else t).item in self.spec.get("lit_as", {}):
+                t0 = t0 if t0.kind == "rec" else t
             elif t0.kind == "list" and t.kind == "list" and (t0.item is None or t.item is None):
                 t0 = t0 if t.item is None else t
             else:
@@ -1691,9 +1936,14 @@ class FnSM(P.Fn):
         for (r_, m_) in self.used_rec_methods:
             o = spec["rec_methods"][r_][m_]
             ins = [r_] + [P._paren(lty(t)) for t in o["args"]]
+            if o.get("mutates"):
+                opq_params.append(f"({r_}_{m_} : " + " → ".join(ins + [f"PySM.M ({P._paren(lty(o['ret']))} × {r_})"]) + ")")
+                continue
             opq_params.append(f"({r_}_{m_} : " + " → ".join(ins + [f"PySM.M {P._paren(lty(o['ret']))}" if o.get("raises") else lty(o["ret"])]) + ")")
         for (r_, a_, t_) in self.used_setters:
             opq_params.append(f"({r_}_set_{a_} : {r_} → {lty(t_)} → {r_})")
+        for (inj_, rt_) in self.used_injections:
+            opq_params.append(f"({inj_} : Int → {rt_})")
         for (on_, ot_, it_) in self.used_obj_iters:
             opq_params.append(f"(iter_{on_} : {ot_} → PySM.M ((List {P._paren(lty(it_))}) × {ot_}))")
         if self.uses_iter_self:
@@ -1707,9 +1957,11 @@ class FnSM(P.Fn):
         corder = list(spec.get("columns", {}))       # declared order: stable under reordering of the statements
         cols = [f"(col_{c} : {lty(rt_)} → {lty(ct)})"
                 for (c, rt_, ct) in sorted(self.used_cols, key=lambda u: corder.index(u[0]))]
-        if any(t_.uses_real() for _, t_ in lean_params) or any(
-                t_.uses_real() for k_, o in spec.get("opaque", {}).items() if k_ in self.used_opaque
-                for t_ in list(o["args"]) + [o["ret"]]):
+        if any(uses_real_sm(t_) for _, t_ in lean_params) or any(
+                uses_real_sm(t_) for k_, o in spec.get("opaque", {}).items() if k_ in self.used_opaque
+                for t_ in list(o["args"]) + [o["ret"]] + list(o.get("kwparams", {}).values())) or any(
+                uses_real_sm(t_) for (_, _, t_) in self.used_attrs) or any(
+                uses_real_sm(spec["rec_methods"][r_][m_]["ret"]) for (r_, m_) in self.used_rec_methods):
             self.uses_real = True
         sig = " ".join(([("{" + " ".join(recs) + " : Type}")] if recs else []) +
                        (["{α : Type} [RealOps α]"] if self.uses_real else []) + opq_params + cols + hidden +
@@ -1798,7 +2050,8 @@ def exc_of(name):
     return {"ValueError": "(PySM.Exc.py Py.Err.valueError)", "IndexError": "(PySM.Exc.py Py.Err.indexError)",
             "AssertionError": "(PySM.Exc.py Py.Err.assertionError)", "StopIteration": "PySM.Exc.stopIteration",
             "TypeError": "PySM.Exc.typeError", "AttributeError": "PySM.Exc.attributeError",
-            "KeyError": "PySM.Exc.keyError"}.get(
+            "KeyError": "PySM.Exc.keyError", "OSError": "PySM.Exc.osError", "IOError": "PySM.Exc.osError",
+            "EnvironmentError": "PySM.Exc.osError", "RuntimeError": "PySM.Exc.runtimeError"}.get(
         name, "(PySM.Exc.py Py.Err.other)")
 
 
@@ -1828,6 +2081,22 @@ _BLT_CALLEES = {"_simulate_catalog": [
     dict(lean="simulate_catalog_binary_injected", kw=["random_numbers"], hidden=[],
          types=[NAT, LIST(F64), LIST(NAT), LIST(F64)], ret=LIST(NAT))]}
 _BLT_OPAQUE = {"binary_joint_log_likelihood_ndarray": dict(lean="binary_ll", args=[LIST(REAL), LIST(NAT)], ret=REAL)}
+
+# catalog_evaluations (C10): the opaque objects
+_CE_ATTRS = {"Forecast": {"region": OPT(REC("Region")), "expected_rates": OPT(REC("GF")), "name": REC("FName"),
+                          "min_magnitude": REC("MinMw")},
+             "Obs": {"event_count": NAT, "name": REC("ObsName"), "__str__": REC("ObsRepr")},
+             "Cat": {"event_count": NAT}}
+_CE_METHODS = {"Forecast": {"get_expected_rates": dict(args=[], ret=REC("GF"), mutates=True, ignore_kw=["verbose"])},
+               "GF": {"sum": dict(args=[], ret=REAL), "spatial_counts": dict(args=[], ret=LIST(REAL)),
+                      "magnitude_counts": dict(args=[], ret=LIST(REAL))},
+               "Obs": {"spatial_counts": dict(args=[], ret=LIST(NAT), raises=True),
+                       "magnitude_counts": dict(args=[], ret=LIST(NAT), raises=True)},
+               "Cat": {"spatial_counts": dict(args=[], ret=LIST(NAT), raises=True),
+                       "magnitude_counts": dict(args=[], ret=LIST(NAT), raises=True)}}
+_CE_OPAQUE = {"_compute_likelihood": dict(lean="compute_likelihood", args=[LIST(NAT), LIST(REAL), REAL, NAT],
+                                          ret=TUPLE(EREAL, NREAL)),
+              "get_quantiles": dict(lean="get_quantiles", args=[LIST(NREAL), NREAL], ret=TUPLE(REC("Qv"), REC("Qv")))}
 
 # the catalog gridding methods (C03)
 _GRID_SELF = {"catalog": ("catalog", LIST(ROW)), "region": ("region", REC("Region"))}
@@ -1927,6 +2196,67 @@ TARGETS = [
                      kwparams={"test_distribution": LIST(NAT), "name": STR, "observed_statistic": NAT,
                                "quantile": TUPLE(REC("Qv"), REC("Qv")), "status": STR, "obs_catalog_repr": REC("ObsRepr"),
                                "sim_name": REC("FName"), "min_mw": REC("MinMw"), "obs_name": REC("ObsName")})}),
+    # C10: `spatial_test` / `pseudolikelihood_test` / `magnitude_test` (verbose=False). The forecast is an opaque object:
+    # `forecast.get_expected_rates(…)` a method that changes it (in SourceSM/C10L.lean instantiated with the generated
+    # `get_expected_rates`), `enumerate(forecast)` one pass; the gridded-forecast methods, the catalogs' counting methods,
+    # `_compute_likelihood` (returns (lh, lh_norm): -inf / nan possible), `get_quantiles`, the result constructor are opaque.
+    dict(file="csep/core/catalog_evaluations.py", func="spatial_test", lean="catalog_spatial_test", prop="C10", also=[],
+         module="C10L", label="catalog_evaluations.spatial_test[verbose=False]",
+         params=dict(forecast=REC("Forecast"), observed_catalog=REC("Obs"), verbose={"static": False}),
+         locals=dict(test_distribution=LIST(NREAL)), iter_objs={"forecast": dict(item=REC("Cat"))},
+         lit_as={"Qv": "Qv_of_int"}, rec_attrs=_CE_ATTRS, rec_methods=_CE_METHODS,
+         opaque=dict(_CE_OPAQUE, CatalogSpatialTestResult=dict(
+             lean="mkResult", args=[], ret=REC("Result"),
+             kwparams={"test_distribution": LIST(NREAL), "name": STR, "observed_statistic": NREAL,
+                       "quantile": TUPLE(REC("Qv"), REC("Qv")), "status": STR, "min_mw": REC("MinMw"),
+                       "obs_catalog_repr": REC("ObsRepr"), "sim_name": REC("FName"), "obs_name": REC("ObsName")}))),
+    # the first component of `_compute_likelihood` is what `pseudolikelihood_test` uses: declared nan-able as well (more
+    # general than the hand model, where it never is nan); `return None` next to `return result`: Optional result
+    dict(file="csep/core/catalog_evaluations.py", func="pseudolikelihood_test", lean="catalog_pseudolikelihood_test",
+         prop="C10", also=[], module="C10L", label="catalog_evaluations.pseudolikelihood_test[verbose=False]",
+         params=dict(forecast=REC("Forecast"), observed_catalog=REC("Obs"), verbose={"static": False}),
+         locals=dict(test_distribution=LIST(NREAL)), returns=OPT(REC("Result")),
+         iter_objs={"forecast": dict(item=REC("Cat"))},
+         lit_as={"Qv": "Qv_of_int"}, rec_attrs=_CE_ATTRS, rec_methods=_CE_METHODS,
+         opaque=dict(_CE_OPAQUE,
+                     _compute_likelihood=dict(lean="compute_likelihood", args=[LIST(NAT), LIST(REAL), REAL, NAT],
+                                              ret=TUPLE(NREAL, NREAL)),
+                     CatalogPseudolikelihoodTestResult=dict(
+             lean="mkResult", args=[], ret=REC("Result"),
+             kwparams={"test_distribution": LIST(NREAL), "name": STR, "observed_statistic": NREAL,
+                       "quantile": TUPLE(REC("Qv"), REC("Qv")), "status": STR, "min_mw": REC("MinMw"),
+                       "obs_catalog_repr": REC("ObsRepr"), "sim_name": REC("FName"), "obs_name": REC("ObsName")}))),
+    # `magnitude_test`: `continue` for catalogs without events; `n_obs / n_events` of two numpy integers is the real-layer
+    # quotient (int_div); `cumulative_square_diff` opaque; the result's `observed_statistic` / `quantile` members are Optional
+    dict(file="csep/core/catalog_evaluations.py", func="magnitude_test", lean="catalog_magnitude_test",
+         prop="C10", also=[], module="C10L", label="catalog_evaluations.magnitude_test[verbose=False]",
+         params=dict(forecast=REC("Forecast"), observed_catalog=REC("Obs"), verbose={"static": False}),
+         locals=dict(test_distribution=LIST(REAL)), iter_objs={"forecast": dict(item=REC("Cat"))}, int_div="real",
+         rec_attrs=dict(_CE_ATTRS, Region={"magnitudes": OPT(REC("Mags"))}), rec_methods=_CE_METHODS,
+         opaque=dict(get_quantiles=dict(lean="get_quantiles", args=[LIST(REAL), REAL], ret=TUPLE(REC("Qv"), REC("Qv"))),
+                     cumulative_square_diff=dict(lean="cumulative_square_diff", args=[LIST(REAL), LIST(REAL)], ret=REAL),
+                     CatalogMagnitudeTestResult=dict(
+             lean="mkResult", args=[], ret=REC("Result"),
+             kwparams={"test_distribution": LIST(REAL), "name": STR, "observed_statistic": OPT(REAL),
+                       "quantile": TUPLE(OPT(REC("Qv")), OPT(REC("Qv"))), "status": STR, "min_mw": REC("MinMw"),
+                       "obs_catalog_repr": REC("ObsRepr"), "obs_name": REC("ObsName"), "sim_name": REC("FName")}))),
+    # C19: the record loop of `readers.ndk` (from its `for` on): groups of five lines, an incomplete last group and the groups
+    # `_read_lines` / `_parse_datetime_to_zmap` reject with ValueError / IOError resp. ValueError are skipped, any other
+    # exception ends the load; the event id is the index of the GROUP. `_read_lines`, `lines_iter` (nested; digests pinned),
+    # `_parse_datetime_to_zmap`, `datetime.datetime`, `datetime_to_utc_epoch` are opaque; `record[...]` opaque projections.
+    dict(file="csep/utils/readers.py", func="ndk", lean="ndk_loop", prop="C19", also=[], module="C19N",
+         label="readers.ndk[record loop]", params=dict(filename=Ty("file")), body_from="for",
+         live_in=dict(out=LIST(TUPLE(NAT, INT, F64, F64, F64, F64))), ignore_locals=["msg"],
+         local_defs_opaque=["_read_lines", "lines_iter"],
+         rec_attrs={"Rec": {"date": REC("DateTok"), "time": REC("TimeTok"), "hypo_lat": F64, "hypo_lng": F64,
+                            "hypo_depth_in_km": F64, "Mw": F64},
+                    "DtDict": {"year": INT, "month": INT, "day": INT, "hour": INT, "minute": INT, "second": INT}},
+         opaque={"_read_lines": dict(lean="read_lines", args=[LIST(OPT(REC("Line")))], ret=REC("Rec"), raises=True, star=True),
+                 "lines_iter": dict(lean="lines_iter", args=[], ret=LIST(REC("Line")), generator=True),
+                 "_parse_datetime_to_zmap": dict(lean="parse_datetime_to_zmap", args=[REC("DateTok"), REC("TimeTok")],
+                                                 ret=REC("DtDict"), raises=True),
+                 "datetime.datetime": dict(lean="mk_datetime", args=[INT, INT, INT, INT, INT, INT], ret=REC("Dt"), raises=True),
+                 "datetime_to_utc_epoch": dict(lean="datetime_to_utc_epoch", args=[REC("Dt")], ret=INT)}),
     # C12: the decoder state machine of the catalog-forecast loader (a generator): `prev_id` / `events` / placeholder rows,
     # one catalog per id. Specialisation: `filename` is a regular file; the rows `csv.reader` hands to the loop are the
     # parameter `rows'` (tokenisation and the field parsing of the nested helper `read_catalog_line` are separate layers:
